@@ -270,6 +270,11 @@ func TestHandshakePayloads(t *testing.T) {
 			// more than 16 BYTES: plain ASCII, or multi-byte UTF-8 characters so that
 			// the byte length exceeds 16 while the character count may not
 			n := rapid.IntRange(17, 40).Draw(t, "ulen")
+			if rapid.IntRange(0, 2).Draw(t, "veryLong") == 0 {
+				// lengths around the widths a length might be narrowed to on the way
+				n = rapid.SampledFrom([]int{255, 256, 257, 260, 272, 273, 511, 512, 528, 65536, 65540, 65552}).Draw(t, "ulenWide")
+				ev.Label("very-long-username-refused")
+			}
 			var u []byte
 			switch rapid.IntRange(0, 2).Draw(t, "nameKind") {
 			case 0:
@@ -665,7 +670,7 @@ func TestSetupRequestLayers(t *testing.T) {
 }
 
 func TestCoverage(t *testing.T) {
-	need := []string{"setup-request-layers", "history:session-info-by-id", "history:privilege-query-after-change", "history:reopen-after-in-session-traffic", "history:retransmissions-checked", "long-username-refused", "enum:cipher-suites", "enum:dcmi", "enum:dcmi-entity-instance", "handshake:auth1", "handshake:auth2", "handshake:auth3"}
+	need := []string{"setup-request-layers", "very-long-username-refused", "history:session-info-by-id", "history:privilege-query-after-change", "history:reopen-after-in-session-traffic", "history:retransmissions-checked", "long-username-refused", "enum:cipher-suites", "enum:dcmi", "enum:dcmi-entity-instance", "handshake:auth1", "handshake:auth2", "handshake:auth3"}
 	for _, e := range hx.Catalogue() {
 		_ = e
 	}
